@@ -1,31 +1,67 @@
 (* Conc/Shared.v -- one WriteTransaction used from several threads (C16; definitions only).
 
    Threads open DIFFERENT tables of one write transaction, run their own operation streams on them, and
-   other threads call ephemeral_savepoint() / drop Savepoints meanwhile.  Shared between them: the `tables`
-   mutex (catalog + dirty flag transitions), the dirty flag, the allocation-tracking switch of the
-   transaction's PageTracker, the tracker's valid savepoints, and the page allocator.
+   other threads call ephemeral_savepoint() / persistent_savepoint() / drop Savepoints / list tables / ask for
+   stats / delete tables meanwhile.  Shared between them: the `tables` mutex (catalog + dirty flag transitions),
+   the dirty flag, the allocation-tracking switch of the transaction's PageTracker, the tracker's valid
+   savepoints, the page allocator, the `freed_pages` mutex with the transaction-wide list of replaced committed
+   pages behind it, and the `system_tables` mutex.
    A LOG is a list of (thread, label): `LEnter c` = the thread starts call c and runs to its first pause
    point, `LSec n` = it runs the section that begins at pause point n.  `sstep` is partial: a label that the
-   code could not execute in that state (mutex held by another thread, wrong call) has no successor.
-   Table operations (insert/remove) have no pause point inside: they are single steps here. *)
+   code could not execute in that state (mutex held by another thread, wrong call) has no successor;
+   `sblocked` tells the steps that are missing because a MUTEX is held (the thread sleeps until it is released).
+
+   Table operations.  `SPut` / `SDel` are single steps without page effects (the schedules that do not stop inside a
+   table operation).  `SOp tb e secs` is a table operation with its effect `e` on the table's contents and its
+   freed_pages sections, in code order: (true, r) = r committed pages replaced by copy-on-write, queued in the table's
+   scratch list `local_freed` and MERGED into the transaction-wide list under the mutex (merge_freed_pages: pause point
+   F.merge, then lock; append; unlock); (false, n) = n pages pushed directly under the mutex (get_mut / and_modify:
+   one page per tree level; MultimapValue::drop, multimap remove, extract_if: one batch; pause points F.x before the
+   lock and F.x.locked inside).  Which pages an operation replaces is the operation's business (the B-tree): here it
+   takes them from the front of the table's committed pages.  `SDelete tb rm b`: delete_table under the tables mutex --
+   set_dirty, the catalog entry removed (rm catalog pages replaced, merged), the table's b committed pages pushed.
+   `SHold k`: a call that takes the tables mutex (k = 0: list_tables, list_multimap_tables, an open_table that fails),
+   tables then system_tables (k = 1: stats) or system_tables only (k >= 2: list_persistent_savepoints) and does NOT
+   make the transaction dirty.
+
+   Seeded variants (flags in the state, false in every initial state the theorems speak about):
+   s_try_merge = merge_freed_pages gives up when the mutex is busy (try_lock; the pages stay in the scratch list);
+   s_try_esp = ephemeral_savepoint() takes a busy tables mutex for a dirty transaction (try_lock; InvalidSavepoint). *)
 From Coq Require Import List NArith Bool.
 Import ListNotations.
 Open Scope N_scope.
 
+Inductive effect := ENone | EPut (k v : N) | EDel (k : N) | EDelRange (lo hi : N).
+
 Inductive scall :=
 | SOpen (tb : N) | SPut (tb k v : N) | SDel (tb k : N) | SClose (tb : N)
-| SSavepoint (h : N) | SDropSavepoint (h : N).
+| SSavepoint (h : N) | SDropSavepoint (h : N)
+| SOp (tb : N) (e : effect) (secs : list (bool * N))
+| SHold (k : N)
+| SDelete (tb rm b : N).
 
 Inductive sname :=
-| NSetDirty | NSetDirtyStored | NAnySavepoint                    (* open_table *)
+| NSetDirty | NSetDirtyStored | NAnySavepoint                    (* open_table, delete_table: set_dirty *)
 | NEsp | NEspLocked | NRegisterRead | NAllocSavepoint | NEspUnlocked | NGetDataRoot | NGetVersion  (* ephemeral_savepoint *)
-| NDeallocSavepoint | NDeallocRead.                              (* Savepoint::drop *)
+| NDeallocSavepoint | NDeallocRead                               (* Savepoint::drop *)
+| NPspSys | NPspSysLocked                                        (* persistent_savepoint: the record, under system_tables *)
+| NMerge | NFreedPre | NFreedLocked                              (* freed_pages sections of a table operation *)
+| NHold | NHoldSys.                                              (* inside the tables / system_tables section of a non-dirtying call *)
+
+Scheme Equality for sname.
 
 Inductive slabel := LEnter (c : scall) | LSec (n : sname).
 
 Inductive sres := SOk | SErrDirty | SErrOpen.
 
-Record table := { tb_map : list (N * N); tb_pages : list N; tb_owner : option nat }.
+Record table := {
+  tb_map : list (N * N);
+  tb_pages : list N;                  (* pages allocated for the table by this transaction *)
+  tb_owner : option nat;
+  tb_committed : list N;              (* committed pages still linked into the table's tree *)
+  tb_local : list N;                  (* BtreeMut::local_freed between operations (empty in the code as it is) *)
+  tb_todo : list (bool * list N)      (* the freed_pages sections the operation in progress still has to run, with their pages *)
+}.
 
 Record sst := {
   s_dirty : bool;
@@ -40,7 +76,13 @@ Record sst := {
   s_tracked : list N;                 (* pages recorded by the PageTracker while tracking *)
   s_at : list (nat * (scall * option sname));   (* thread -> call in progress and the pause point it waits at *)
   s_handles : list (N * N);           (* savepoint handle -> savepoint id *)
-  s_results : list (nat * scall * sres)         (* completed calls, newest first *)
+  s_results : list (nat * scall * sres);        (* completed calls, newest first *)
+  s_flock : option nat;               (* holder of the `freed_pages` mutex *)
+  s_syslock : option nat;             (* holder of the `system_tables` mutex *)
+  s_freed : list N;                   (* the transaction-wide list of replaced committed pages (DATA_FREED at commit) *)
+  s_replaced : list N;                (* ghost: every committed page an operation has replaced so far, in order *)
+  s_try_merge : bool;
+  s_try_esp : bool
 }.
 
 Fixpoint tget (k : N) (l : list (N * table)) : option table :=
@@ -61,158 +103,340 @@ Fixpoint mput (k v : N) (m : list (N * N)) : list (N * N) :=
   end.
 Fixpoint mdel (k : N) (m : list (N * N)) : list (N * N) :=
   match m with [] => [] | (k', v') :: r => if N.eqb k k' then r else (k', v') :: mdel k r end.
+Definition mdelrange (lo hi : N) (m : list (N * N)) : list (N * N) :=
+  filter (fun e => negb (N.leb lo (fst e) && N.ltb (fst e) hi)) m.
 Fixpoint hget (k : N) (l : list (N * N)) : option N :=
   match l with [] => None | (k', v) :: r => if N.eqb k k' then Some v else hget k r end.
 Fixpoint rm1 (x : N) (l : list N) : list N :=
   match l with [] => [] | y :: r => if N.eqb x y then r else y :: rm1 x r end.
 
-Definition upd (s : sst) dirty tracking lock valid nsp pins tables npage tracked at_ handles results : sst :=
+(* ---------------------------------------------------------------- setters *)
+Definition mk (s : sst) dirty tracking lock valid nsp pins tables npage tracked at_ handles results flock syslock freed replaced : sst :=
   {| s_dirty := dirty; s_tracking := tracking; s_lock := lock; s_valid := valid; s_next_sp := nsp; s_pins := pins;
      s_base := s_base s; s_tables := tables; s_next_page := npage; s_tracked := tracked; s_at := at_;
-     s_handles := handles; s_results := results |}.
-
+     s_handles := handles; s_results := results; s_flock := flock; s_syslock := syslock; s_freed := freed;
+     s_replaced := replaced; s_try_merge := s_try_merge s; s_try_esp := s_try_esp s |}.
 Definition set_at (s : sst) (t : nat) (c : scall) (n : option sname) : sst :=
-  upd s (s_dirty s) (s_tracking s) (s_lock s) (s_valid s) (s_next_sp s) (s_pins s) (s_tables s) (s_next_page s)
-      (s_tracked s) ((t, (c, n)) :: ndel t (s_at s)) (s_handles s) (s_results s).
+  mk s (s_dirty s) (s_tracking s) (s_lock s) (s_valid s) (s_next_sp s) (s_pins s) (s_tables s) (s_next_page s)
+     (s_tracked s) ((t, (c, n)) :: ndel t (s_at s)) (s_handles s) (s_results s) (s_flock s) (s_syslock s) (s_freed s) (s_replaced s).
 Definition finish (s : sst) (t : nat) (c : scall) (r : sres) : sst :=
-  upd s (s_dirty s) (s_tracking s) (s_lock s) (s_valid s) (s_next_sp s) (s_pins s) (s_tables s) (s_next_page s)
-      (s_tracked s) (ndel t (s_at s)) (s_handles s) ((t, c, r) :: s_results s).
+  mk s (s_dirty s) (s_tracking s) (s_lock s) (s_valid s) (s_next_sp s) (s_pins s) (s_tables s) (s_next_page s)
+     (s_tracked s) (ndel t (s_at s)) (s_handles s) ((t, c, r) :: s_results s) (s_flock s) (s_syslock s) (s_freed s) (s_replaced s).
+Definition set_dirty (s : sst) (b : bool) : sst :=
+  mk s b (s_tracking s) (s_lock s) (s_valid s) (s_next_sp s) (s_pins s) (s_tables s) (s_next_page s)
+     (s_tracked s) (s_at s) (s_handles s) (s_results s) (s_flock s) (s_syslock s) (s_freed s) (s_replaced s).
+Definition set_tracking (s : sst) (b : bool) : sst :=
+  mk s (s_dirty s) b (s_lock s) (s_valid s) (s_next_sp s) (s_pins s) (s_tables s) (s_next_page s)
+     (s_tracked s) (s_at s) (s_handles s) (s_results s) (s_flock s) (s_syslock s) (s_freed s) (s_replaced s).
 Definition set_lock (s : sst) (l : option nat) : sst :=
-  upd s (s_dirty s) (s_tracking s) l (s_valid s) (s_next_sp s) (s_pins s) (s_tables s) (s_next_page s)
-      (s_tracked s) (s_at s) (s_handles s) (s_results s).
+  mk s (s_dirty s) (s_tracking s) l (s_valid s) (s_next_sp s) (s_pins s) (s_tables s) (s_next_page s)
+     (s_tracked s) (s_at s) (s_handles s) (s_results s) (s_flock s) (s_syslock s) (s_freed s) (s_replaced s).
+Definition set_flock (s : sst) (l : option nat) : sst :=
+  mk s (s_dirty s) (s_tracking s) (s_lock s) (s_valid s) (s_next_sp s) (s_pins s) (s_tables s) (s_next_page s)
+     (s_tracked s) (s_at s) (s_handles s) (s_results s) l (s_syslock s) (s_freed s) (s_replaced s).
+Definition set_syslock (s : sst) (l : option nat) : sst :=
+  mk s (s_dirty s) (s_tracking s) (s_lock s) (s_valid s) (s_next_sp s) (s_pins s) (s_tables s) (s_next_page s)
+     (s_tracked s) (s_at s) (s_handles s) (s_results s) (s_flock s) l (s_freed s) (s_replaced s).
+Definition set_tables (s : sst) (tb : list (N * table)) : sst :=
+  mk s (s_dirty s) (s_tracking s) (s_lock s) (s_valid s) (s_next_sp s) (s_pins s) tb (s_next_page s)
+     (s_tracked s) (s_at s) (s_handles s) (s_results s) (s_flock s) (s_syslock s) (s_freed s) (s_replaced s).
+Definition set_freed (s : sst) (f : list N) : sst :=
+  mk s (s_dirty s) (s_tracking s) (s_lock s) (s_valid s) (s_next_sp s) (s_pins s) (s_tables s) (s_next_page s)
+     (s_tracked s) (s_at s) (s_handles s) (s_results s) (s_flock s) (s_syslock s) f (s_replaced s).
+Definition set_replaced (s : sst) (r : list N) : sst :=
+  mk s (s_dirty s) (s_tracking s) (s_lock s) (s_valid s) (s_next_sp s) (s_pins s) (s_tables s) (s_next_page s)
+     (s_tracked s) (s_at s) (s_handles s) (s_results s) (s_flock s) (s_syslock s) (s_freed s) r.
+(* one page from the allocator, recorded by the PageTracker while it tracks *)
+Definition alloc_page (s : sst) : sst :=
+  mk s (s_dirty s) (s_tracking s) (s_lock s) (s_valid s) (s_next_sp s) (s_pins s) (s_tables s) (s_next_page s + 1)
+     (if s_tracking s then s_next_page s :: s_tracked s else s_tracked s) (s_at s) (s_handles s) (s_results s)
+     (s_flock s) (s_syslock s) (s_freed s) (s_replaced s).
+Definition set_savepoints (s : sst) valid nsp pins handles : sst :=
+  mk s (s_dirty s) (s_tracking s) (s_lock s) valid nsp pins (s_tables s) (s_next_page s)
+     (s_tracked s) (s_at s) handles (s_results s) (s_flock s) (s_syslock s) (s_freed s) (s_replaced s).
+
 Definition lock_free (s : sst) : bool := match s_lock s with None => true | Some _ => false end.
 Definition holds (s : sst) (t : nat) : bool := match s_lock s with Some t' => Nat.eqb t t' | None => false end.
-Definition empty_table : table := {| tb_map := []; tb_pages := []; tb_owner := None |}.
+Definition flock_free (s : sst) : bool := match s_flock s with None => true | Some _ => false end.
+Definition fholds (s : sst) (t : nat) : bool := match s_flock s with Some t' => Nat.eqb t t' | None => false end.
+Definition sys_free (s : sst) : bool := match s_syslock s with None => true | Some _ => false end.
+Definition sholds (s : sst) (t : nat) : bool := match s_syslock s with Some t' => Nat.eqb t t' | None => false end.
+Definition empty_table : table :=
+  {| tb_map := []; tb_pages := []; tb_owner := None; tb_committed := []; tb_local := []; tb_todo := [] |}.
+Definition owner_is (tbl : table) (t : nat) : bool := match tb_owner tbl with Some o => Nat.eqb o t | None => false end.
+Definition with_owner (tbl : table) (o : option nat) : table :=
+  {| tb_map := tb_map tbl; tb_pages := tb_pages tbl; tb_owner := o; tb_committed := tb_committed tbl;
+     tb_local := tb_local tbl; tb_todo := tb_todo tbl |}.
+Definition with_map (tbl : table) (m : list (N * N)) : table :=
+  {| tb_map := m; tb_pages := tb_pages tbl; tb_owner := tb_owner tbl; tb_committed := tb_committed tbl;
+     tb_local := tb_local tbl; tb_todo := tb_todo tbl |}.
+Definition with_pages (tbl : table) (p : list N) : table :=
+  {| tb_map := tb_map tbl; tb_pages := p; tb_owner := tb_owner tbl; tb_committed := tb_committed tbl;
+     tb_local := tb_local tbl; tb_todo := tb_todo tbl |}.
+Definition with_free (tbl : table) (comm local : list N) (todo : list (bool * list N)) : table :=
+  {| tb_map := tb_map tbl; tb_pages := tb_pages tbl; tb_owner := tb_owner tbl; tb_committed := comm;
+     tb_local := local; tb_todo := todo |}.
+
+Definition is_persistent (h : N) : bool := N.leb 500 h && N.ltb h 900.
+Definition master : N := 0.              (* the catalog (master table) as a table of the model: only its pages matter *)
+
+Definition apply_effect (e : effect) (m : list (N * N)) : list (N * N) :=
+  match e with ENone => m | EPut k v => mput k v m | EDel k => mdel k m | EDelRange lo hi => mdelrange lo hi m end.
+Definition is_put (e : effect) : bool := match e with EPut _ _ => true | _ => false end.
+
+(* the pages of the sections, in order, from the front of the committed pages *)
+Fixpoint take_secs (secs : list (bool * N)) (comm : list N) : list (bool * list N) * list N :=
+  match secs with
+  | [] => ([], comm)
+  | (m, n) :: r =>
+    let '(rest, comm') := take_secs r (skipn (N.to_nat n) comm) in ((m, firstn (N.to_nat n) comm) :: rest, comm')
+  end.
+Definition pages_of_todo (todo : list (bool * list N)) : list N := flat_map snd todo.
+
+(* where a table operation goes after its body / after a section *)
+Definition continue_op (s : sst) (t : nat) (c : scall) (todo : list (bool * list N)) : sst :=
+  match todo with
+  | [] => finish s t c SOk
+  | (true, _) :: _ => set_at s t c (Some NMerge)
+  | (false, _) :: _ => set_at s t c (Some NFreedPre)
+  end.
+
+(* ---------------------------------------------------------------- entering a call *)
+Definition step_enter (t : nat) (c : scall) (s : sst) : option sst :=
+  match c with
+  | SOpen tb =>
+    (* WriteTransaction::open_table takes the tables mutex before anything else; inner_open *)
+    if lock_free s then
+      let tbl := match tget tb (s_tables s) with Some x => x | None => empty_table end in
+      match tb_owner tbl with
+      | Some _ => Some (finish s t c SErrOpen)       (* TableAlreadyOpen; the mutex is released again *)
+      | None => Some (set_at (set_lock (set_tables s (tset tb (with_owner tbl (Some t)) (s_tables s))) (Some t)) t c (Some NSetDirty))
+      end
+    else None
+  | SPut tb k v =>
+    match tget tb (s_tables s) with
+    | Some tbl =>
+      if owner_is tbl t then
+        let p := s_next_page s in
+        Some (finish (alloc_page (set_tables s (tset tb (with_pages (with_map tbl (mput k v (tb_map tbl))) (p :: tb_pages tbl)) (s_tables s)))) t c SOk)
+      else None
+    | None => None
+    end
+  | SDel tb k =>
+    match tget tb (s_tables s) with
+    | Some tbl =>
+      if owner_is tbl t then Some (finish (set_tables s (tset tb (with_map tbl (mdel k (tb_map tbl))) (s_tables s))) t c SOk)
+      else None
+    | None => None
+    end
+  | SOp tb e secs =>
+    match tget tb (s_tables s) with
+    | Some tbl =>
+      if owner_is tbl t then
+        let '(todo, comm') := take_secs secs (tb_committed tbl) in
+        let p := s_next_page s in
+        let tbl1 := with_free (with_map tbl (apply_effect e (tb_map tbl))) comm' (tb_local tbl) (tb_todo tbl ++ todo) in
+        let tbl2 := if is_put e then with_pages tbl1 (p :: tb_pages tbl) else tbl1 in
+        let s1 := set_replaced (set_tables s (tset tb tbl2 (s_tables s))) (s_replaced s ++ pages_of_todo todo) in
+        let s2 := if is_put e then alloc_page s1 else s1 in
+        Some (continue_op s2 t c (tb_todo tbl ++ todo))
+      else None
+    | None => None
+    end
+  | SClose tb =>
+    (* dropping the table handle: close_table under the tables mutex; whatever is still in the scratch list dies with it *)
+    if lock_free s then
+      match tget tb (s_tables s) with
+      | Some tbl =>
+        if owner_is tbl t then
+          Some (finish (set_tables s (tset tb (with_free (with_owner tbl None) (tb_committed tbl) [] (tb_todo tbl)) (s_tables s))) t c SOk)
+        else None
+      | None => None
+      end
+    else None
+  | SSavepoint _ => Some (set_at s t c (Some NEsp))
+  | SDropSavepoint h =>
+    match hget h (s_handles s) with
+    | Some _ => Some (set_at s t c (Some NDeallocSavepoint))
+    | None => None
+    end
+  | SHold k =>
+    if N.leb k 1 then
+      if lock_free s then Some (set_at (set_lock s (Some t)) t c (Some NHold)) else None
+    else
+      if sys_free s then Some (set_at (set_syslock s (Some t)) t c (Some NHoldSys)) else None
+  | SDelete tb rm b =>
+    (* delete_table of a table nobody has open, under the tables mutex for the whole call *)
+    if lock_free s then
+      match tget tb (s_tables s), tget master (s_tables s) with
+      | Some tbl, Some mt =>
+        match tb_owner tbl with
+        | Some _ => None
+        | None =>
+          if N.eqb tb master then None else
+          let mps := firstn (N.to_nat rm) (tb_committed mt) in
+          let bps := firstn (N.to_nat b) (tb_committed tbl) in
+          let todo := (match mps with [] => [] | _ => [(true, mps)] end) ++ [(false, bps)] in
+          let tabs1 := tset master (with_free mt (skipn (N.to_nat rm) (tb_committed mt)) (tb_local mt) (tb_todo mt)) (s_tables s) in
+          let tabs2 := tset tb (with_free (with_pages (with_map tbl []) []) (skipn (N.to_nat b) (tb_committed tbl)) (tb_local tbl) (tb_todo tbl ++ todo)) tabs1 in
+          Some (set_at (set_lock (set_replaced (set_tables s tabs2) (s_replaced s ++ pages_of_todo todo)) (Some t)) t c (Some NSetDirty))
+        end
+      | _, _ => None
+      end
+    else None
+  end.
+
+(* ---------------------------------------------------------------- the sections *)
+(* set_dirty under the tables mutex: open_table and delete_table *)
+Definition sec_set_dirty (t : nat) (c : scall) (n : sname) (s : sst) : option sst :=
+  if holds s t then
+    match n with
+    | NSetDirty => Some (set_at (set_dirty s true) t c (Some NSetDirtyStored))
+    | NSetDirtyStored => Some (set_at s t c (Some NAnySavepoint))
+    | NAnySavepoint =>
+      let tr := match s_valid s with [] => false | _ => s_tracking s end in
+      match c with
+      | SOpen _ => Some (finish (set_lock (set_tracking s tr) None) t c SOk)
+      | _ => Some (set_at (set_tracking s tr) t c (Some NFreedPre))      (* delete_table: on to the catalog and the table's pages *)
+      end
+    | _ => None
+    end
+  else None.
+
+(* ephemeral_savepoint / persistent_savepoint: dirty check and registration under the tables mutex *)
+Definition sec_savepoint (t : nat) (c : scall) (h : N) (n : sname) (s : sst) : option sst :=
+  match n with
+  | NEsp =>
+    if lock_free s then Some (set_at (set_lock s (Some t)) t c (Some NEspLocked))
+    else if s_try_esp s then Some (finish s t c SErrDirty)
+    else None
+  | NEspLocked =>
+    if holds s t then
+      if s_dirty s then Some (finish (set_lock s None) t c SErrDirty)
+      else Some (set_at s t c (Some NRegisterRead))
+    else None
+  | NRegisterRead =>
+    if holds s t then Some (set_at (set_savepoints s (s_valid s) (s_next_sp s) (s_base s :: s_pins s) (s_handles s)) t c (Some NAllocSavepoint))
+    else None
+  | NAllocSavepoint =>
+    if holds s t then
+      let id := s_next_sp s + 1 in
+      Some (set_at (set_lock (set_savepoints s (id :: s_valid s) id (s_pins s) ((h, id) :: s_handles s)) None) t c (Some NEspUnlocked))
+    else None
+  | NEspUnlocked => Some (set_at s t c (Some NGetDataRoot))
+  | NGetDataRoot => Some (set_at s t c (Some NGetVersion))
+  | NGetVersion => if is_persistent h then Some (set_at s t c (Some NPspSys)) else Some (finish s t c SOk)
+  | NPspSys => if sys_free s then Some (set_at (set_syslock s (Some t)) t c (Some NPspSysLocked)) else None
+  | NPspSysLocked => if sholds s t then Some (finish (set_syslock s None) t c SOk) else None
+  | _ => None
+  end.
+
+Definition sec_drop (t : nat) (c : scall) (h : N) (n : sname) (s : sst) : option sst :=
+  match n with
+  | NDeallocSavepoint =>
+    match hget h (s_handles s) with
+    | Some id => Some (set_at (set_savepoints s (rm1 id (s_valid s)) (s_next_sp s) (s_pins s) (s_handles s)) t c (Some NDeallocRead))
+    | None => None
+    end
+  | NDeallocRead =>
+    Some (finish (set_savepoints s (s_valid s) (s_next_sp s) (rm1 (s_base s) (s_pins s))
+                                 (filter (fun x => negb (N.eqb (fst x) h)) (s_handles s))) t c SOk)
+  | _ => None
+  end.
+
+(* the freed_pages sections of a table operation *)
+Definition sec_op (t : nat) (c : scall) (tb : N) (n : sname) (s : sst) : option sst :=
+  match tget tb (s_tables s) with
+  | Some tbl =>
+    match n, tb_todo tbl with
+    | NMerge, (true, ps) :: rest =>
+      (* merge_freed_pages: lock; append the scratch list; unlock *)
+      match s_flock s with
+      | None =>
+        Some (continue_op (set_freed (set_tables s (tset tb (with_free tbl (tb_committed tbl) [] rest) (s_tables s)))
+                                     (s_freed s ++ tb_local tbl ++ ps)) t c rest)
+      | Some _ =>
+        if s_try_merge s then
+          Some (continue_op (set_tables s (tset tb (with_free tbl (tb_committed tbl) (tb_local tbl ++ ps) rest) (s_tables s))) t c rest)
+        else None
+      end
+    | NFreedPre, (false, _) :: _ =>
+      if flock_free s then Some (set_at (set_flock s (Some t)) t c (Some NFreedLocked)) else None
+    | NFreedLocked, (false, ps) :: rest =>
+      if fholds s t then
+        Some (continue_op (set_flock (set_freed (set_tables s (tset tb (with_free tbl (tb_committed tbl) (tb_local tbl) rest) (s_tables s)))
+                                                (s_freed s ++ ps)) None) t c rest)
+      else None
+    | _, _ => None
+    end
+  | None => None
+  end.
+
+(* delete_table after set_dirty: the catalog entry (merge), then the table's pages, all under the tables mutex *)
+Definition sec_delete (t : nat) (c : scall) (tb : N) (n : sname) (s : sst) : option sst :=
+  if holds s t then
+    match tget tb (s_tables s) with
+    | Some tbl =>
+      match n, tb_todo tbl with
+      | NFreedPre, (true, _) :: _ => Some (set_at s t c (Some NMerge))
+      | NFreedPre, (false, _) :: _ =>
+        if flock_free s then Some (set_at (set_flock s (Some t)) t c (Some NFreedLocked)) else None
+      | NMerge, (true, ps) :: rest =>
+        if flock_free s then
+          Some (set_at (set_flock (set_freed (set_tables s (tset tb (with_free tbl (tb_committed tbl) (tb_local tbl) rest) (s_tables s)))
+                                             (s_freed s ++ ps)) (Some t)) t c (Some NFreedLocked))
+        else None
+      | NFreedLocked, (false, ps) :: ([] as rest) =>
+        if fholds s t then
+          Some (finish (set_lock (set_flock (set_freed (set_tables s (tset tb (with_free tbl (tb_committed tbl) (tb_local tbl) rest) (s_tables s)))
+                                                       (s_freed s ++ ps)) None) None) t c SOk)
+        else None
+      | _, _ => None
+      end
+    | None => None
+    end
+  else None.
+
+Definition sec_hold (t : nat) (c : scall) (k : N) (n : sname) (s : sst) : option sst :=
+  match n with
+  | NHold =>
+    if holds s t then
+      if N.eqb k 0 then Some (finish (set_lock s None) t c SOk)
+      else if sys_free s then Some (set_at (set_syslock s (Some t)) t c (Some NHoldSys)) else None
+    else None
+  | NHoldSys =>
+    if sholds s t then
+      if N.eqb k 1 then (if holds s t then Some (finish (set_lock (set_syslock s None) None) t c SOk) else None)
+      else Some (finish (set_syslock s None) t c SOk)
+    else None
+  | _ => None
+  end.
+
+Definition step_sec (t : nat) (c : scall) (n : sname) (s : sst) : option sst :=
+  match c with
+  | SOpen _ => match n with NSetDirty | NSetDirtyStored | NAnySavepoint => sec_set_dirty t c n s | _ => None end
+  | SDelete tb _ _ =>
+    match n with
+    | NSetDirty | NSetDirtyStored | NAnySavepoint => sec_set_dirty t c n s
+    | _ => sec_delete t c tb n s
+    end
+  | SSavepoint h => sec_savepoint t c h n s
+  | SDropSavepoint h => sec_drop t c h n s
+  | SOp tb _ _ => sec_op t c tb n s
+  | SHold k => sec_hold t c k n s
+  | _ => None
+  end.
 
 Definition sstep (t : nat) (l : slabel) (s : sst) : option sst :=
   match l with
   | LEnter c =>
     match nget t (s_at s) with
     | Some _ => None                                     (* a thread runs one call at a time *)
-    | None =>
-      match c with
-      | SOpen tb =>
-        (* WriteTransaction::open_table takes the tables mutex before anything else; inner_open *)
-        if lock_free s then
-          let tbl := match tget tb (s_tables s) with Some x => x | None => empty_table end in
-          match tb_owner tbl with
-          | Some _ => Some (finish s t c SErrOpen)       (* TableAlreadyOpen; the mutex is released again *)
-          | None =>
-            let s1 := upd s (s_dirty s) (s_tracking s) (Some t) (s_valid s) (s_next_sp s) (s_pins s)
-                          (tset tb {| tb_map := tb_map tbl; tb_pages := tb_pages tbl; tb_owner := Some t |} (s_tables s))
-                          (s_next_page s) (s_tracked s) (s_at s) (s_handles s) (s_results s) in
-            Some (set_at s1 t c (Some NSetDirty))
-          end
-        else None
-      | SPut tb k v =>
-        match tget tb (s_tables s) with
-        | Some tbl =>
-          if match tb_owner tbl with Some o => Nat.eqb o t | None => false end then
-            let p := s_next_page s in
-            let s1 := upd s (s_dirty s) (s_tracking s) (s_lock s) (s_valid s) (s_next_sp s) (s_pins s)
-                          (tset tb {| tb_map := mput k v (tb_map tbl); tb_pages := p :: tb_pages tbl; tb_owner := tb_owner tbl |}
-                                (s_tables s))
-                          (p + 1) (if s_tracking s then p :: s_tracked s else s_tracked s) (s_at s) (s_handles s)
-                          (s_results s) in
-            Some (finish s1 t c SOk)
-          else None
-        | None => None
-        end
-      | SDel tb k =>
-        match tget tb (s_tables s) with
-        | Some tbl =>
-          if match tb_owner tbl with Some o => Nat.eqb o t | None => false end then
-            let s1 := upd s (s_dirty s) (s_tracking s) (s_lock s) (s_valid s) (s_next_sp s) (s_pins s)
-                          (tset tb {| tb_map := mdel k (tb_map tbl); tb_pages := tb_pages tbl; tb_owner := tb_owner tbl |}
-                                (s_tables s))
-                          (s_next_page s) (s_tracked s) (s_at s) (s_handles s) (s_results s) in
-            Some (finish s1 t c SOk)
-          else None
-        | None => None
-        end
-      | SClose tb =>
-        (* dropping the table handle: close_table under the tables mutex *)
-        if lock_free s then
-          match tget tb (s_tables s) with
-          | Some tbl =>
-            if match tb_owner tbl with Some o => Nat.eqb o t | None => false end then
-              let s1 := upd s (s_dirty s) (s_tracking s) (s_lock s) (s_valid s) (s_next_sp s) (s_pins s)
-                            (tset tb {| tb_map := tb_map tbl; tb_pages := tb_pages tbl; tb_owner := None |} (s_tables s))
-                            (s_next_page s) (s_tracked s) (s_at s) (s_handles s) (s_results s) in
-              Some (finish s1 t c SOk)
-            else None
-          | None => None
-          end
-        else None
-      | SSavepoint _ => Some (set_at s t c (Some NEsp))
-      | SDropSavepoint h =>
-        match hget h (s_handles s) with
-        | Some _ => Some (set_at s t c (Some NDeallocSavepoint))
-        | None => None
-        end
-      end
+    | None => step_enter t c s
     end
   | LSec n =>
     match nget t (s_at s) with
-    | Some (c, Some n') =>
-      if negb (match n, n' with
-               | NSetDirty, NSetDirty | NSetDirtyStored, NSetDirtyStored | NAnySavepoint, NAnySavepoint | NEsp, NEsp
-               | NEspLocked, NEspLocked | NRegisterRead, NRegisterRead | NAllocSavepoint, NAllocSavepoint
-               | NEspUnlocked, NEspUnlocked | NGetDataRoot, NGetDataRoot | NGetVersion, NGetVersion
-               | NDeallocSavepoint, NDeallocSavepoint | NDeallocRead, NDeallocRead => true
-               | _, _ => false end) then None else
-      match c, n with
-      (* ---- open_table: set_dirty under the tables mutex *)
-      | SOpen _, NSetDirty =>
-        if holds s t then
-          Some (set_at (upd s true (s_tracking s) (s_lock s) (s_valid s) (s_next_sp s) (s_pins s) (s_tables s)
-                            (s_next_page s) (s_tracked s) (s_at s) (s_handles s) (s_results s)) t c (Some NSetDirtyStored))
-        else None
-      | SOpen _, NSetDirtyStored => if holds s t then Some (set_at s t c (Some NAnySavepoint)) else None
-      | SOpen _, NAnySavepoint =>
-        if holds s t then
-          let tr := match s_valid s with [] => false | _ => s_tracking s end in
-          Some (finish (upd s (s_dirty s) tr None (s_valid s) (s_next_sp s) (s_pins s) (s_tables s) (s_next_page s)
-                            (s_tracked s) (s_at s) (s_handles s) (s_results s)) t c SOk)
-        else None
-      (* ---- ephemeral_savepoint: dirty check and registration under the tables mutex *)
-      | SSavepoint _, NEsp => if lock_free s then Some (set_at (set_lock s (Some t)) t c (Some NEspLocked)) else None
-      | SSavepoint _, NEspLocked =>
-        if holds s t then
-          if s_dirty s then Some (finish (set_lock s None) t c SErrDirty)
-          else Some (set_at s t c (Some NRegisterRead))
-        else None
-      | SSavepoint _, NRegisterRead =>
-        if holds s t then
-          Some (set_at (upd s (s_dirty s) (s_tracking s) (s_lock s) (s_valid s) (s_next_sp s) (s_base s :: s_pins s)
-                            (s_tables s) (s_next_page s) (s_tracked s) (s_at s) (s_handles s) (s_results s))
-                       t c (Some NAllocSavepoint))
-        else None
-      | SSavepoint h, NAllocSavepoint =>
-        if holds s t then
-          let id := s_next_sp s + 1 in
-          Some (set_at (upd s (s_dirty s) (s_tracking s) None (id :: s_valid s) id (s_pins s) (s_tables s)
-                            (s_next_page s) (s_tracked s) (s_at s) ((h, id) :: s_handles s) (s_results s))
-                       t c (Some NEspUnlocked))
-        else None
-      | SSavepoint _, NEspUnlocked => Some (set_at s t c (Some NGetDataRoot))
-      | SSavepoint _, NGetDataRoot => Some (set_at s t c (Some NGetVersion))
-      | SSavepoint _, NGetVersion => Some (finish s t c SOk)
-      (* ---- Savepoint::drop *)
-      | SDropSavepoint h, NDeallocSavepoint =>
-        match hget h (s_handles s) with
-        | Some id =>
-          Some (set_at (upd s (s_dirty s) (s_tracking s) (s_lock s) (rm1 id (s_valid s)) (s_next_sp s) (s_pins s)
-                            (s_tables s) (s_next_page s) (s_tracked s) (s_at s) (s_handles s) (s_results s))
-                       t c (Some NDeallocRead))
-        | None => None
-        end
-      | SDropSavepoint h, NDeallocRead =>
-        Some (finish (upd s (s_dirty s) (s_tracking s) (s_lock s) (s_valid s) (s_next_sp s) (rm1 (s_base s) (s_pins s))
-                          (s_tables s) (s_next_page s) (s_tracked s) (s_at s)
-                          (filter (fun x => negb (N.eqb (fst x) h)) (s_handles s)) (s_results s)) t c SOk)
-      | _, _ => None
-      end
+    | Some (c, Some n') => if sname_beq n n' then step_sec t c n s else None
     | _ => None
     end
   end.
@@ -223,21 +447,70 @@ Fixpoint srun (log : list (nat * slabel)) (s : sst) : option sst :=
   | (t, l) :: r => match sstep t l s with Some s' => srun r s' | None => None end
   end.
 
+(* the step is missing because it needs a MUTEX that another thread holds: the thread sleeps, nothing changes *)
+Definition sblocked (t : nat) (l : slabel) (s : sst) : bool :=
+  match l with
+  | LEnter c =>
+    match nget t (s_at s) with
+    | Some _ => false
+    | None =>
+      match c with
+      | SOpen _ | SClose _ | SDelete _ _ _ => negb (lock_free s)
+      | SHold k => if N.leb k 1 then negb (lock_free s) else negb (sys_free s)
+      | _ => false
+      end
+    end
+  | LSec n =>
+    match nget t (s_at s) with
+    | Some (c, Some n') =>
+      if sname_beq n n' then
+        match c, n with
+        | SSavepoint _, NEsp => negb (lock_free s) && negb (s_try_esp s)
+        | SSavepoint _, NPspSys => negb (sys_free s)
+        | SOp _ _ _, NMerge => negb (flock_free s) && negb (s_try_merge s)
+        | SOp _ _ _, NFreedPre => negb (flock_free s)
+        | SDelete tb _ _, NFreedPre =>
+          match tget tb (s_tables s) with
+          | Some tbl => match tb_todo tbl with (false, _) :: _ => negb (flock_free s) | _ => false end
+          | None => false
+          end
+        | SDelete _ _ _, NMerge => negb (flock_free s)
+        | SHold k, NHold => negb (N.eqb k 0) && negb (sys_free s)
+        | _, _ => false
+        end
+      else false
+    | _ => false
+    end
+  end.
+
+(* ---------------------------------------------------------------- initial states *)
 (* a fresh write transaction; `pre` = savepoints that are valid already (taken by earlier transactions; their
-   handles carry the same numbers); `tabs` = tables that exist already with their committed contents *)
-Definition seed_table (x : N * list (N * N)) : N * table :=
-  (fst x, {| tb_map := snd x; tb_pages := []; tb_owner := None |}).
-Definition sinit_tables (pre : list N) (tabs : list (N * list (N * N))) : sst :=
+   handles carry the same numbers); `tabs` = tables that exist already with their committed contents; `comm` = the
+   committed pages of the tables (and of the catalog, table `master`) *)
+Fixpoint cget (k : N) (l : list (N * list N)) : list N :=
+  match l with [] => [] | (k', v) :: r => if N.eqb k k' then v else cget k r end.
+Definition seed_table (m : list (N * N)) (c : list N) : table :=
+  {| tb_map := m; tb_pages := []; tb_owner := None; tb_committed := c; tb_local := []; tb_todo := [] |}.
+Definition init_tables (tabs : list (N * list (N * N))) (comm : list (N * list N)) : list (N * table) :=
+  fold_right (fun x acc => tset (fst x) (seed_table (snd x) (cget (fst x) comm)) acc)
+             (fold_right (fun y acc => tset (fst y) (seed_table [] (snd y)) acc) [] comm) tabs.
+Definition sinit_cfg (try_merge try_esp : bool) (pre : list N) (tabs : list (N * list (N * N))) (comm : list (N * list N)) : sst :=
   {| s_dirty := false; s_tracking := true; s_lock := None; s_valid := pre; s_next_sp := 100; s_pins := map (fun _ => 1) pre;
-     s_base := 1; s_tables := map seed_table tabs; s_next_page := 1; s_tracked := []; s_at := [];
-     s_handles := map (fun x => (x, x)) pre; s_results := [] |}.
+     s_base := 1; s_tables := init_tables tabs comm; s_next_page := 1; s_tracked := []; s_at := [];
+     s_handles := map (fun x => (x, x)) pre; s_results := []; s_flock := None; s_syslock := None; s_freed := [];
+     s_replaced := []; s_try_merge := try_merge; s_try_esp := try_esp |}.
+Definition sinit_full (pre : list N) (tabs : list (N * list (N * N))) (comm : list (N * list N)) : sst := sinit_cfg false false pre tabs comm.
+Definition sinit_tables (pre : list N) (tabs : list (N * list (N * N))) : sst := sinit_full pre tabs [].
 Definition sinit (pre : list N) : sst := sinit_tables pre [].
 
+(* ---------------------------------------------------------------- specifications *)
 (* the specification of one table: its own operations, applied in order *)
 Definition apply_call (tb : N) (m : list (N * N)) (c : scall) : list (N * N) :=
   match c with
   | SPut tb' k v => if N.eqb tb tb' then mput k v m else m
   | SDel tb' k => if N.eqb tb tb' then mdel k m else m
+  | SOp tb' e _ => if N.eqb tb tb' then apply_effect e m else m
+  | SDelete tb' _ _ => if N.eqb tb tb' then [] else m
   | _ => m
   end.
 Definition own_stream (tb : N) (log : list (nat * slabel)) : list scall :=
@@ -249,3 +522,29 @@ Definition table_map (s : sst) (tb : N) : list (N * N) :=
   match tget tb (s_tables s) with Some t => tb_map t | None => [] end.
 Definition table_pages (s : sst) (tb : N) : list N :=
   match tget tb (s_tables s) with Some t => tb_pages t | None => [] end.
+Definition table_committed (s : sst) (tb : N) : list N :=
+  match tget tb (s_tables s) with Some t => tb_committed t | None => [] end.
+
+(* a dirtying step: the store of the dirty flag (open_table / delete_table, under the tables mutex) *)
+Definition is_store (l : slabel) : bool := match l with LSec NSetDirty => true | _ => false end.
+Definition dirtied (log : list (nat * slabel)) : bool := existsb (fun e => is_store (snd e)) log.
+
+(* what the table operations of a log replace, in log order: a function of the log and of the committed pages of each
+   table (comm tb = the committed pages of table tb not replaced yet) *)
+Definition sum_secs (secs : list (bool * N)) : nat := fold_right (fun x a => (N.to_nat (snd x) + a)%nat) 0%nat secs.
+Fixpoint repl_log (comm : N -> list N) (log : list (nat * slabel)) : list N :=
+  match log with
+  | [] => []
+  | (_, LEnter (SOp tb _ secs)) :: r =>
+    firstn (sum_secs secs) (comm tb) ++
+    repl_log (fun x => if N.eqb x tb then skipn (sum_secs secs) (comm tb) else comm x) r
+  | (_, LEnter (SDelete tb rm b)) :: r =>
+    firstn (N.to_nat rm) (comm master) ++ firstn (N.to_nat b) (comm tb) ++
+    repl_log (fun x => if N.eqb x tb then skipn (N.to_nat b) (comm tb)
+                       else if N.eqb x master then skipn (N.to_nat rm) (comm master) else comm x) r
+  | _ :: r => repl_log comm r
+  end.
+
+(* the replaced pages that are not in the transaction-wide list yet: scratch lists and sections still to run *)
+Definition pending_of (x : N * table) : list N := tb_local (snd x) ++ pages_of_todo (tb_todo (snd x)).
+Definition pending (s : sst) : list N := flat_map pending_of (s_tables s).
